@@ -535,6 +535,101 @@ func textStreamCases(r *Run, rng *Rng, n int) {
 	}
 }
 
+// ---------- anchors: kio.FromBytes (AnchorsAweigh) -> kio.StringAll ----------
+
+var c13AnchorDocs = []string{
+	// alias to a mapping that itself contains an alias
+	"defs:\n  d: &d\n    x: 1\n  n: &n\n    inner: *d\n    y: 2\nuse:\n  ref: *n\n",
+	// alias to a mapping that contains a merge key to another anchor
+	"defs:\n  d: &d\n    x: 1\n  n: &n\n    <<: *d\n    y: 2\nuse:\n  ref: *n\n",
+	// alias to a sequence holding aliases
+	"d: &d {x: 1}\nl: &l\n- *d\n- z\n- [*d]\nuse: *l\n",
+	// merge of a mapping that contains an alias, and merge lists
+	"d: &d {x: 1}\nn: &n\n  inner: *d\nm:\n  <<: *n\n  k: v\nmm:\n  <<: [*n, *d]\n",
+	// three levels
+	"a: &a {p: q}\nb: &b\n  a1: *a\nc: &c\n  b1: *b\n  <<: *a\nuse:\n  c1: *c\n  cs: [*c, *b, *a]\n",
+	// aliases to scalars inside aliased collections
+	"s: &s hello\nm: &m\n  t: *s\n  u: [*s, *s]\nuse: *m\nagain: *m\n",
+	// plain single level (control)
+	"base: &anc\n  k: v\n  l: [1, 2]\nuse: *anc\nmerged:\n  <<: *anc\n  extra: y\n",
+}
+
+func anchorOracle(r *Run, rng *Rng, n int) {
+	check := func(s string) {
+		desc := map[string]string{"kind": "anchors", "s": s}
+		report := func(law, cls, detail string) {
+			r.Violation(OracleViolation{Law: law, Class: cls, Detail: detail, Replay: desc})
+		}
+		var out string
+		cls, msg := protect(func() error {
+			nodes, err := kio.FromBytes([]byte(s))
+			if err != nil {
+				return err
+			}
+			out, err = kio.StringAll(nodes)
+			return err
+		})
+		r.AddEval("anchors|"+s, cls == ClsOk)
+		r.Count("anchors", cls)
+		if cls == ClsPanic {
+			report("no_panic", "C13/anchors-panic", msg)
+			return
+		}
+		if cls != ClsOk {
+			report("roundtrip_ok", "C13/anchors-rejected", "FromBytes/StringAll rejected a stream with nested anchors: "+msg)
+			return
+		}
+		if strings.Contains(out, "*") || strings.Contains(out, "&") || strings.Contains(out, "<<") {
+			report("anchors_expanded", "C13/anchors-left-in-output", "an alias, anchor or merge key is left after DeAnchor:\n"+out)
+		}
+		in, err1 := jsonDocs(s, true)
+		got, err2 := jsonDocs(out, false)
+		if err2 != nil {
+			report("anchors_expanded", "C13/anchors-output-unparsable", fmt.Sprintf("the output does not reparse: %v\n%s", err2, out))
+			return
+		}
+		if err1 != nil {
+			return
+		}
+		if !reflect.DeepEqual(in, got) {
+			a, _ := json.Marshal(in)
+			b, _ := json.Marshal(got)
+			cls := "C13/anchors-data"
+			if strings.Contains(s, ">+") && len(in) == len(got) {
+				known := true
+				for i := range in {
+					if !onlyKeepFoldedGrowth(in[i], got[i]) {
+						known = false
+					}
+				}
+				if known {
+					cls = "C13/roundtrip-data/folded-keep-scalar-gains-line-break"
+				}
+			}
+			report("anchors_expanded", cls, fmt.Sprintf("expanded data differs: %s -> %s", a, b))
+		}
+		// and the ordinary reader/writer (aliases kept) still round-trips
+		roundTripOracle(r, s)
+	}
+	for _, d := range c13AnchorDocs {
+		check(d)
+	}
+	// streams mixing them with ordinary documents
+	for i := 0; i < n; i++ {
+		g := rng.Fork()
+		k := 1 + g.Intn(3)
+		var parts []string
+		for j := 0; j < k; j++ {
+			if g.Chance(65) {
+				parts = append(parts, g.Pick(c13AnchorDocs))
+			} else {
+				parts = append(parts, genDoc13(g, j))
+			}
+		}
+		check(strings.Join(parts, "---\n"))
+	}
+}
+
 // ---------- round trip oracles ----------
 
 func roundTrip(s string) (string, error) {
@@ -987,7 +1082,13 @@ func annotationCases(r *Run, rng *Rng) {
 
 type recFS struct {
 	filesys.FileSystem
-	muts []string // "op path"
+	muts  []string // "op path"
+	opens []string // files opened for reading
+}
+
+func (f *recFS) Open(p string) (filesys.File, error) {
+	f.opens = append(f.opens, p)
+	return f.FileSystem.Open(p)
 }
 
 func (f *recFS) WriteFile(p string, d []byte) error {
@@ -1469,6 +1570,124 @@ func readWriterSequences(r *Run, rng *Rng, n int) {
 	}
 }
 
+// ---------- LocalPackageReadWriter: every option combination, hostile annotations carried in file contents ----------
+
+var c13Hostile = []string{"../outside/secret.yaml", "/outside/secret.yaml", "../pkg-evil/x.yaml", "d/../../outside/secret.yaml",
+	"..", "../../outside", "/", "a.yaml/../../outside/secret.yaml"}
+
+func readWriterOptionMatrix(r *Run, rng *Rng, n int) {
+	for it := 0; it < n; it++ {
+		g := rng.Fork()
+		fs, err := newPkgFS()
+		if err != nil {
+			return
+		}
+		_ = fs.WriteFile("/pkg-evil/x.yaml", []byte("victim: 2\n"))
+		plain := func(i int) string {
+			return fmt.Sprintf("apiVersion: v1\nkind: ConfigMap\nmetadata:\n  name: f%d\n", i)
+		}
+		hostile := func(i int) string {
+			key := g.Pick([]string{kioutil.PathAnnotation, kioutil.LegacyPathAnnotation})
+			extra := ""
+			if g.Chance(40) {
+				extra = fmt.Sprintf("    %s: %s\n", g.Pick([]string{kioutil.IndexAnnotation, kioutil.LegacyIndexAnnotation}), yq13(g.Pick([]string{"0", "7", "x", ""})))
+			}
+			if g.Chance(30) {
+				extra += fmt.Sprintf("    %s: %s\n", g.Pick([]string{kioutil.PathAnnotation, kioutil.LegacyPathAnnotation}), yq13(g.Pick(c13Hostile)))
+			}
+			return fmt.Sprintf("apiVersion: v1\nkind: ConfigMap\nmetadata:\n  name: h%d\n  annotations:\n    %s: %s\n%s", i, key, yq13(g.Pick(c13Hostile)), extra)
+		}
+		files := map[string]string{
+			"a.yaml":      plain(0) + "---\n" + hostile(1),
+			"d/b.yaml":    hostile(2),
+			"d/c.yaml":    plain(3) + "---\n" + plain(4),
+			"sub/Kptfile": "apiVersion: kpt.dev/v1\nkind: Kptfile\nmetadata:\n  name: sub\n",
+			"sub/e.yaml":  hostile(5) + "---\n" + plain(6),
+			"list.yaml":   "apiVersion: v1\nkind: List\nitems:\n- " + strings.ReplaceAll(strings.TrimSuffix(hostile(7), "\n"), "\n", "\n  ") + "\n",
+		}
+		for f, c := range files {
+			_ = fs.WriteFile("/pkg/"+f, []byte(c))
+		}
+		rw := &kio.LocalPackageReadWriter{PackagePath: "/pkg", FileSystem: filesys.FileSystemOrOnDisk{FileSystem: fs},
+			OmitReaderAnnotations: g.Chance(50), KeepReaderAnnotations: g.Chance(40), NoDeleteFiles: g.Chance(25),
+			IncludeSubpackages: g.Chance(50), PreserveSeqIndent: g.Chance(20)}
+		if g.Chance(60) {
+			rw.PackageFileName = "Kptfile"
+		}
+		if g.Chance(20) {
+			rw.SetAnnotations = map[string]string{"verif/tag": "t"}
+		}
+		if g.Chance(15) {
+			rw.MatchFilesGlob = []string{"*.yaml", "Kptfile"}
+		}
+		opts := fmt.Sprintf("omit=%v keep=%v nodelete=%v subpkgs=%v pkgfile=%q seqindent=%v", rw.OmitReaderAnnotations, rw.KeepReaderAnnotations,
+			rw.NoDeleteFiles, rw.IncludeSubpackages, rw.PackageFileName, rw.PreserveSeqIndent)
+		desc := map[string]interface{}{"kind": "pkg-options", "options": opts, "files": files}
+		fs.muts, fs.opens = nil, nil
+		var nodes []*kyaml.RNode
+		cls, msg := protect(func() error {
+			var err error
+			nodes, err = rw.Read()
+			return err
+		})
+		checkMuts(r, fs, "delete_confined", "C13/options-escape", desc)
+		if cls == ClsPanic {
+			r.Violation(OracleViolation{Law: "no_panic", Class: "C13/pkg-readwrite-panic", Detail: msg, Replay: desc})
+		}
+		r.Count("pkg_options_read", cls)
+		if cls != ClsOk {
+			continue
+		}
+		readFiles := map[string]bool{}
+		for _, p := range fs.opens {
+			readFiles[filepath.Clean(p)] = true
+		}
+		for st := 0; st < 2; st++ {
+			var out []*kyaml.RNode
+			for _, n0 := range nodes {
+				if g.Chance(45) {
+					continue // a filter dropped it
+				}
+				n := n0.Copy()
+				if g.Chance(15) {
+					p := g.Pick(append(append([]string{}, c13SeqFiles...), c13SeqNew...))
+					_ = n.PipeE(kyaml.SetAnnotation(kioutil.PathAnnotation, p))
+					_ = n.PipeE(kyaml.SetAnnotation(kioutil.LegacyPathAnnotation, p))
+				}
+				out = append(out, n)
+			}
+			fs.muts = nil
+			cls, msg := protect(func() error { return rw.Write(out) })
+			sdesc := map[string]interface{}{"kind": "pkg-options", "options": opts, "files": files, "step": st, "kept": len(out)}
+			checkMuts(r, fs, "delete_confined", "C13/options-escape", sdesc)
+			for _, m := range fs.muts {
+				op, p, _ := strings.Cut(m, " ")
+				if op == "RemoveAll" && !readFiles[filepath.Clean(p)] {
+					r.Violation(OracleViolation{Law: "delete_confined", Class: "C13/delete-not-read", Detail: fmt.Sprintf("[%s] RemoveAll of something that was not read from the package: %s", opts, p), Replay: sdesc})
+				}
+				if op == "RemoveAll" && rw.NoDeleteFiles {
+					r.Violation(OracleViolation{Law: "delete_confined", Class: "C13/delete-despite-nodelete", Detail: "RemoveAll with NoDeleteFiles: " + p, Replay: sdesc})
+				}
+			}
+			if cls == ClsPanic {
+				r.Violation(OracleViolation{Law: "no_panic", Class: "C13/pkg-readwrite-panic", Detail: msg, Replay: sdesc})
+			}
+			for victim, want := range map[string]string{"/outside/secret.yaml": "secret: 1\n", "/pkg-evil/x.yaml": "victim: 2\n"} {
+				if b, err := fs.ReadFile(victim); err != nil || string(b) != want {
+					r.Violation(OracleViolation{Law: "delete_confined", Class: "C13/options-escape", Detail: fmt.Sprintf("[%s] %s was deleted or changed", opts, victim), Replay: sdesc})
+				}
+			}
+			for _, p := range []string{"/outside", "/pkg-evil"} {
+				if l, err := fs.ReadDir(p); err == nil && len(l) != 1 {
+					r.Violation(OracleViolation{Law: "delete_confined", Class: "C13/options-escape", Detail: fmt.Sprintf("[%s] entries of %s changed: %v", opts, p, l), Replay: sdesc})
+				}
+			}
+			r.AddEval(fmt.Sprint(sdesc, it), cls == ClsOk)
+			r.Count("pkg_options_write", fmt.Sprintf("%s omit=%v nodelete=%v", cls, rw.OmitReaderAnnotations, rw.NoDeleteFiles))
+		}
+	}
+}
+
 // ---------- the run ----------
 
 func runC13(r *Run, rng *Rng, tier string) error {
@@ -1514,6 +1733,7 @@ func runC13(r *Run, rng *Rng, tier string) error {
 		roundTripOracle(r, s)
 	}
 	keepTailCases(r)
+	anchorOracle(r, rng.Fork(), nBatches/3)
 	emptyDocCases(r)
 	nText := 120
 	if tier == "thorough" {
@@ -1525,6 +1745,7 @@ func runC13(r *Run, rng *Rng, tier string) error {
 	// 4. package IO
 	pkgWriterCases(r, rng.Fork(), nBatches)
 	readWriterSequences(r, rng.Fork(), nBatches)
+	readWriterOptionMatrix(r, rng.Fork(), nBatches)
 	return nil
 }
 
